@@ -8,12 +8,14 @@ import (
 	"fmt"
 	"io"
 	"math/rand"
+	"runtime/debug"
 	"sort"
 	"strings"
 	"testing"
 
 	pb "github.com/ipfs/boxo/ipld/unixfs/pb"
 	"github.com/ipfs/go-cid"
+	"github.com/ipfs/go-unixfsnode"
 	"github.com/ipfs/go-unixfsnode/testutil"
 )
 
@@ -78,6 +80,99 @@ func describe(de testutil.DirEntry) FTree {
 	}
 	sort.SliceStable(t.Kids, func(i, j int) bool { return t.Kids[i].Name < t.Kids[j].Name })
 	return t
+}
+
+// describeRB: the tree testutil.ToDirEntryFrom read back (directories always carry a non-nil child list there)
+func describeRB(de testutil.DirEntry) FTree {
+	t := FTree{Name: lastSeg(de.Path), Path: de.Path, Root: de.Root.String(), Kids: []FTree{}}
+	if de.Children == nil {
+		t.Kind = "file"
+		t.Hash = hashOf(de.Content)
+		return t
+	}
+	t.Kind = "dir"
+	for _, c := range de.Children {
+		t.Kids = append(t.Kids, describeRB(c))
+	}
+	sort.SliceStable(t.Kids, func(i, j int) bool { return t.Kids[i].Name < t.Kids[j].Name })
+	return t
+}
+
+// withT runs f with a *testing.T on a goroutine of its own.  The T does not belong to a running test (the testing
+// package offers no way to make one outside "go test"): a failed requirement panics inside the testing package
+// when it tries to log, which is taken - like Goexit and t.Failed() - for "failed"; a passing f never touches the T.
+// The message carries where the failure was raised.
+func withT(f func(t *testing.T)) (ok bool, msg string) {
+	t := &testing.T{}
+	done := make(chan struct{})
+	finished := false
+	go func() {
+		defer close(done)
+		defer func() {
+			if r := recover(); r != nil {
+				for _, ln := range strings.Split(string(debug.Stack()), "\n") {
+					if strings.Contains(ln, "go-unixfsnode") || strings.Contains(ln, "/testutil/") {
+						msg += strings.TrimSpace(ln) + "; "
+					}
+				}
+			}
+		}()
+		f(t)
+		finished = true
+	}()
+	<-done
+	if len(msg) > 600 {
+		msg = msg[:600]
+	}
+	return finished && !t.Failed(), msg
+}
+
+// mutateEntry: copies of a described tree with one thing wrong (a root, a content byte, a child dropped, a child
+// renamed), for the comparison helper to tell apart from the original
+func mutateEntry(de testutil.DirEntry) []testutil.DirEntry {
+	var out []testutil.DirEntry
+	var clone func(d testutil.DirEntry) testutil.DirEntry
+	clone = func(d testutil.DirEntry) testutil.DirEntry {
+		c := d
+		if d.Content != nil {
+			c.Content = append([]byte{}, d.Content...)
+		}
+		if d.Children != nil {
+			c.Children = make([]testutil.DirEntry, len(d.Children))
+			for i := range d.Children {
+				c.Children[i] = clone(d.Children[i])
+			}
+		}
+		return c
+	}
+	// the deepest-first leaf and the last child of the root
+	leaf := func(d *testutil.DirEntry) *testutil.DirEntry {
+		for len(d.Children) > 0 {
+			d = &d.Children[0]
+		}
+		return d
+	}
+	m1 := clone(de)
+	if l := leaf(&m1); len(l.Content) > 0 {
+		l.Content[len(l.Content)/2] ^= 1
+		out = append(out, m1)
+	}
+	m2 := clone(de)
+	other := rawCid([]byte("some other block"), cid.Raw)
+	leaf(&m2).Root = other
+	out = append(out, m2)
+	if len(de.Children) > 0 {
+		m3 := clone(de)
+		m3.Children = m3.Children[:len(m3.Children)-1]
+		out = append(out, m3)
+		m4 := clone(de)
+		m4.Children[len(m4.Children)-1].Path += "x"
+		out = append(out, m4)
+		m5 := clone(de)
+		m5.Children = append(m5.Children, clone(m5.Children[0]))
+		out = append(out, m5)
+	}
+	return out
 }
 
 // stored reads the DAG back independently of the library under test.
@@ -269,6 +364,35 @@ func runFixtureCase(fc *FixtureCase, tr *Tr) error {
 		ev["info"] = werr.Error()
 	} else {
 		ev["stored"] = stored
+	}
+	// the library's own read-back (testutil.ToDirEntryFrom over a link system whose NodeReifier is unixfsnode.Reify, as the
+	// downstream test suites use it) and its comparison helper
+	rls := *st.LinkSystem()
+	rls.NodeReifier = unixfsnode.Reify
+	var rb testutil.DirEntry
+	ev["rb"], ev["cmp"], ev["neg"] = "failed", "skip", []string{}
+	ev["tde"] = FTree{Kind: "none", Kids: []FTree{}}
+	if ok, msg := withT(func(t *testing.T) { rb = testutil.ToDirEntryFrom(t, rls, de.Root, de.Path, true) }); !ok {
+		ev["info"] = msg
+	} else {
+		ev["rb"] = "ok"
+		ev["tde"] = describeRB(rb)
+		ev["cmp"] = "skip"
+		if composed || fc.Gen == "file" {
+			ok1, msg1 := withT(func(t *testing.T) { testutil.CompareDirEntries(t, de, rb) })
+			ok2, msg2 := withT(func(t *testing.T) { testutil.CompareDirEntries(t, rb, de) })
+			ev["cmp"] = map[bool]string{true: "pass", false: "fail"}[ok1 && ok2]
+			if !ok1 || !ok2 {
+				ev["info"] = msg1 + msg2
+			}
+		}
+		neg := []string{}
+		for _, m := range mutateEntry(de) {
+			m := m
+			okm, _ := withT(func(t *testing.T) { testutil.CompareDirEntries(t, de, m) })
+			neg = append(neg, map[bool]string{true: "pass", false: "fail"}[okm])
+		}
+		ev["neg"] = neg
 	}
 	tr.Emit(ev)
 	return nil
